@@ -51,6 +51,24 @@ func VerifC16(entry string, n int) {
 		c16Use(DecodeSEIMessage(NewSEIData(SEIContentLightLevelInformationType, in), HEVC))
 	case "general":
 		c16Use(DecodeSEIMessage(NewSEIData(uint(vfy.U16("t")), in), Codec(vfy.Choose("codec", 2))))
+	case "hevc1/0", "hevc1/4", "hevc1/23":
+		// the same with concrete field lengths (symbolic lengths make every fixed-width read
+		// enumerate its width, and the instance runs out of time before the sub-picture syntax)
+		l := map[string]byte{"hevc1/0": 0, "hevc1/4": 4, "hevc1/23": 23}[entry]
+		p := HEVCPicTimingParams{
+			FrameFieldInfoPresentFlag: vfy.Choose("ffi", 2) == 1, CpbDpbDelaysPresentFlag: true,
+			SubPicHrdParamsPresentFlag: vfy.Choose("sub", 2) == 1, SubPicCpbParamsInPicTimingSeiFlag: vfy.Choose("subpt", 2) == 1,
+			AuCbpRemovalDelayLengthMinus1: l, DpbOutputDelayLengthMinus1: l, DpbOutputDelayDuLengthMinus1: l, DuCpbRemovalDelayIncrementLengthMinus1: l,
+		}
+		c16Use(DecodePicTimingHevcSEI(NewSEIData(SEIPicTimingType, in), p))
+	case "hevc1/big":
+		// count inflation, directed: the three one-bit delay fields are followed by at least 13
+		// zero bits, so num_decoding_units_minus1 is an Exp-Golomb code of a value >= 8191
+		if len(in) >= 2 {
+			vfy.Assume(vfy.And(in[0]&0x1f == 0, in[1] == 0))
+		}
+		p := HEVCPicTimingParams{CpbDpbDelaysPresentFlag: true, SubPicHrdParamsPresentFlag: true, SubPicCpbParamsInPicTimingSeiFlag: true}
+		c16Use(DecodePicTimingHevcSEI(NewSEIData(SEIPicTimingType, in), p))
 	case "hevc1":
 		p := HEVCPicTimingParams{
 			FrameFieldInfoPresentFlag: vfy.Choose("ffi", 2) == 1, CpbDpbDelaysPresentFlag: vfy.Choose("cpb", 2) == 1,
